@@ -87,6 +87,8 @@ pub fn creds_alphabet() -> Vec<Creds> {
         Creds::Long { user: "".into(), realm: "".into(), pass: "".into() },
         Creds::Long { user: "MixedCase User".into(), realm: "Realm.EXAMPLE".into(), pass: "PassWord".into() },
         Creds::Short("UPPER lower".into()),
+        // index 8: longer than the 64-byte HMAC block (RFC 2104: hashed with the HMAC's own hash, never cut)
+        Creds::Short("k".repeat(37) + "/session/" + &"Z9".repeat(30)),
     ]
     // (the decorated family of C04 adds credentials with other kinds of spaces, composed characters ...)
 }
